@@ -49,6 +49,10 @@ CHECKS["C19"] = dict(category="exploration",
    technique="Lean model of the validator's fatal structural checks compared class-by-class with Interpreter::validate() on valid and corrupted documents; accepted documents are interpreted and every configuration decided by Spec.Legal; crash-freedom on random SCXML-vocabulary XML",
    text="Soundness: documents validate() accepts are run through the interpreter (no crash, only legal configurations). Completeness: generated valid documents (also with id-less states, null and lua datamodels) must be free of fatal issues and syntax-error warnings. Totality: corrupted documents and random element soup. The Lean model of the fatal checks agrees with the code on all classes; theorems about it are still to come, hence 'exploration'.",
    design_ref="6 / C19", note="Trusted: hand model Model.Validate (structural fatal checks only); generators define what 'valid' means for the completeness stream (ids unique, targets resolve, legal state specifications, one default transition per history/initial).")
+CHECKS["C14"] = dict(category="exploration",
+   technique="differential resume: serialize at a stable point, deserialize into a fresh interpreter (same and foreign document), run the same continuation on original and copy; both engines, null and lua datamodels",
+   text="For random charts and prefix histories the snapshot is taken at the first stable configuration after the last prefix event (self-sent external events may be pending); original and restored interpreter must produce the same notifications, logs and configurations under the continuation and a byte-identical second snapshot; a state string for another document must be rejected. No Lean theorem yet (the engine-state encoding is simple; the bisimulation argument is planned), hence 'exploration'.",
+   design_ref="6 / C14", note="Trusted: the trace harness; delayed events and invokers are outside the generated fragment.")
 PENDING = {}   # id -> reason (filled while the framework is being built)
 
 def main():
